@@ -111,7 +111,20 @@ def gen_unschedulable(rng, cls, d):
     elif cls == 'resource_never_available':
         i = rng.choice(_leaves(case))
         tasks[i].update(resource='z', start=None, end=None, milestone=False, est=rng.choice([None, 8, 64, 100]), spent=None)
-        if rng.random() < 0.7:
+        q = rng.random()
+        if q < 0.3:
+            # capacity exists next to the bound but runs out before the work is placed: the FILL loop (not the search
+            # for the first free day) walks away from the bound over days without capacity until its step limit
+            tasks[i]['est'] = rng.choice([200, 320, 640])
+            pbd = (case['pbound'] // sc.DAY) - sc.BASE_DAY
+            if d == 'fwd':
+                cal = sc.wk([0, 1, 2, 3, 4, 5, 6], ['i', 8], None, sc.day_us(pbd + rng.randint(1, 3), sc.DAY - 1))
+            else:
+                cal = sc.wk([0, 1, 2, 3, 4, 5, 6], ['i', 8], sc.day_us(pbd - rng.randint(2, 4)), None)
+            if d == 'fwd' and case['now'] > case['pbound']:
+                case['now'] = case['pbound']
+                case['now2'] = None
+        elif q < 0.75:
             cal = rng.choice(NEVER)
         elif d == 'fwd':     # available only until a date before the project start: the horizon is exhausted
             cal = sc.wk([0, 1, 2, 3, 4], ['i', 8], None, sc.day_us(rng.randint(-30, -3), sc.DAY - 1))
